@@ -1553,6 +1553,7 @@ class BaseSpaceImpl(*_base_space_impl_base):
             self.model.clear_obj(cells)
             cells.on_delete()
         self.clear_refs_referrers()
+        self.model.refmgr.del_space_refs(self)
         super().on_delete()
 
     def clear_uncached_cells_callers(self, recursive=False):
